@@ -19,13 +19,13 @@ FUNCTIONS = ['plasTeX.Renderers:Renderable.url', 'plasTeX.Renderers:Renderable.f
              'plasTeX.Renderers:URL']
 RULE = ('one evaluation = one path = one skeleton x base-url setting x one class of (split level, toc depth, toc-non-files); non-trivial = a reference whose target lies in another file')
 BOUNDS = {
-    'quick': '3 skeletons (article with labels on sections, subsections and an equation, references from other units, footnotes in section / subsection / subsubsection; book; '
+    'quick': '4 skeletons (article with citations, a bibliography, index entries at four depths and \\printindex; article with labels on sections, subsections and an equation, references from other units, footnotes in section / subsection / subsubsection; book; '
              'deep nesting) x base-url empty or set x split level z3 integer in [-10, 6] x toc-depth in [0, 5] x toc-non-files boolean',
     'thorough': 'as quick plus two more skeletons and dangling references',
 }
 ASSUMPTIONS = ['only the Python-level URL / identifier / table-of-contents / footnote computations are covered; the href and id attributes the Jinja2/ZPT templates finally emit are outside the claim',
                'the renderer is the real base Renderer with file output captured']
-OUTSIDE = ['template output', 'index and citation links']
+OUTSIDE = ['template output']
 BUDGET_S = {'quick': 900, 'thorough': 3300}
 
 SKELETONS = {
@@ -36,6 +36,12 @@ SKELETONS = {
     'deep': ('article', [('section', 's1', 'a'), ('subsection', 'ss1', 'b'), ('subsubsection', 'sss1', 'c\\footnote{f1}'), ('paragraph', 'p1', 'd\\footnote{f2} \\ref{s1}'),
                          ('section', 's2', '\\ref{p1} \\ref{sss1}')]),
 }
+SKELETONS['bibindex'] = ('article', ['x0 \\cite{k2}\\index{zeta} ', ('section', 's1', 'a\\index{alpha} \\cite{k1} \\ref{s2}'), ('subsection', 'ss1', 'b\\index{beta}\\index{alpha} \\cite{k2,k1}'),
+                                      ('subsubsection', 'sss1', 'c\\index{alpha!sub}'), ('section', 's2', 'd\\index{gamma!delta} \\ref{ss1}'),
+                                      '\\begin{thebibliography}{9}\\bibitem{k1}X\\bibitem{k2}Y\\end{thebibliography}\\printindex '])
+# the number a resolved reference shows (default numbering depth 2: deeper units carry no number of their own)
+NUMBERS = {'article': {'s1': '1', 'ss1': '1.1', 's2': '2', 'eq1': '1', 'ss2': '2.1'}, 'book': {'c1': '1', 's1': '1.1', 'ss1': '1.1.1', 'c2': '2', 's2': '2.1'},
+           'deep': {'s1': '1', 'ss1': '1.1', 's2': '2'}, 'bibindex': {'s1': '1', 'ss1': '1.1', 's2': '2'}}
 SECT = ('chapter', 'section', 'subsection', 'subsubsection', 'paragraph')
 
 
@@ -45,7 +51,7 @@ def reset():
 
 class Rec(R.Renderer):
     def cleanup(self, document, files, postProcess=None):
-        rec = self.rec = {'nodes': [], 'refs': [], 'foot': [], 'toc': None}
+        rec = self.rec = {'nodes': [], 'refs': [], 'foot': [], 'toc': None, 'cites': [], 'index': []}
 
         def nearest_file(n):
             while n is not None and getattr(n, 'filename', None) is None:
@@ -58,10 +64,24 @@ class Rec(R.Renderer):
                     if c.nodeName in SECT or c.nodeName in ('document', 'equation'):
                         h = nearest_file(c)
                         rec['nodes'].append({'node': c, 'name': c.nodeName, 'file': c.filename, 'url': str(c.url), 'id': c.id, 'hfile': None if h is None else h.filename})
+                    if c.nodeName == 'cite':
+                        for b in c.bibitems:
+                            bh = nearest_file(b)
+                            rec['cites'].append({'url': str(b.url), 'id': b.id, 'hfile': None if bh is None else bh.filename, 'attached': _attached(b, document)})
+                    if c.nodeName in ('printindex', 'theindex'):
+                        def entries(es):
+                            for en in es:
+                                for pg in en.pages:
+                                    if pg.normal:
+                                        n = pg._cr_node
+                                        nh = nearest_file(n)
+                                        rec['index'].append({'url': str(pg.url), 'id': n.id, 'hfile': None if nh is None else nh.filename, 'attached': _attached(n, document)})
+                                entries(list(en))
+                        entries(list(c))
                     if c.nodeName == 'ref':
                         t = c.idref.get('label')
                         th = nearest_file(t) if t is not None else None
-                        rec['refs'].append({'node': c, 'target': t, 'turl': None if t is None else str(t.url), 'tid': None if t is None else t.id,
+                        rec['refs'].append({'node': c, 'label': str(c.attributes.get('label')), 'tnum': None if t is None or getattr(t, 'ref', None) is None else str(t.ref.textContent), 'target': t, 'turl': None if t is None else str(t.url), 'tid': None if t is None else t.id,
                                             'tfile': None if th is None else th.filename, 'townfile': None if t is None else t.filename,
                                             'attached': t is not None and _attached(t, document)})
                     walk(c)
@@ -153,13 +173,24 @@ def h_links(e, skel, base):
         e.check(x['target'] is not None and x['attached'], 'a reference to an existing label has no target in the document', 'ref-unresolved')
         if x['target'] is None or not x['attached']:
             continue
+        want = NUMBERS.get(skel, {}).get(x['label'])
+        if want is not None:
+            e.check(x['tnum'] == want, 'the reference to %s shows %r, its target carries number %s' % (x['label'], x['tnum'], want), 'ref-number')
         f, frag = split_url(x['turl'])
         e.check(f in files, 'link %r names a file that is not produced' % x['turl'], 'link-file-missing')
         e.check(x['tfile'] is not None and f == x['tfile'], 'link %r: the target is rendered into file %r' % (x['turl'], x['tfile']), 'link-wrong-file')
         if x['townfile'] is None:
             e.check(frag == x['tid'], 'link %r: fragment is not the target\'s identifier %r' % (x['turl'], x['tid']), 'link-fragment')
+    for kind, key in (('citation', 'cites'), ('index', 'index')):
+        for x in rec[key]:
+            f, frag = split_url(x['url'])
+            e.check(x['attached'], 'a %s link points at a node that is not part of the document' % kind, kind + '-dangling')
+            e.check(f in files, '%s link %r names a file that is not produced' % (kind, x['url']), kind + '-file-missing')
+            e.check(x['hfile'] is not None and f == x['hfile'] and frag == x['id'], '%s link %r: the target (id %s) is rendered into file %r' % (kind, x['url'], x['id'], x['hfile']), kind + '-wrong-target')
     # identifiers unique per file
     per_file = {}
+    for x in rec['cites'] + rec['index']:
+        pass
     for x in rec['nodes'] + [{'hfile': y['hfile'], 'id': y['id'], 'name': 'footnote', 'file': None} for y in rec['foot']]:
         per_file.setdefault(x['hfile'], []).append(x['id'])
     for k, ids in per_file.items():
@@ -179,7 +210,9 @@ def h_links(e, skel, base):
                 e.check(any(t is n for t, _ in rec['toc']), 'file %r is not reachable through the table of contents although toc-depth covers the tree' % fn, 'toc-unreachable')
         for t, tf in rec['toc']:
             e.check(tf is not None or bool(nonfiles), 'the table of contents lists a unit without a file although toc-non-files is off', 'toc-nonfile')
-    e.observe([sorted(files), [x['turl'] for x in rec['refs']]])
+    if skel == 'bibindex':
+        e.check(len(rec['cites']) == 4 and len(rec['index']) == 6, 'citation links: %d (4 written), index page links: %d (6 written)' % (len(rec['cites']), len(rec['index'])), 'links-lost')
+    e.observe([sorted(files), [x['turl'] for x in rec['refs']], [x['url'] for x in rec['cites']], len(rec['index'])])
     if len(files) >= 2:
         e.nontriv()
 
